@@ -106,6 +106,7 @@ type mat struct {
 	outs   []reflect.Type
 	pPaths [][]int // per logical param: arg index, then struct field indexes
 	rPaths [][]int // per logical result: result index, then struct field indexes
+	errIdx int     // index of the error result that carries injected faults
 }
 
 // ExecRec is one execution of a user function as observed at the boundary.
@@ -281,7 +282,7 @@ func structOf(fields []reflect.StructField) reflect.Type {
 // layoutIndex: struct field index of child j (of n) of an object with layout lay.
 func layoutIndex(lay, j int) int {
 	switch lay {
-	case 1:
+	case 1, 5:
 		return j
 	case 3:
 		return j + 2
@@ -310,6 +311,19 @@ func buildEnc(items []Enc, embed reflect.Type, embedName string, leafType func(i
 			if lay == 4 && len(it.Obj) == 0 {
 				lay = 0
 			}
+			if lay == 5 || lay == 6 {
+				// composition by embedding: nested objects become embedded (anonymous) fields; with lay 5 the
+				// object has no dig.In/dig.Out of its own and is one only through what it embeds
+				hasObj := false
+				for _, ch := range it.Obj {
+					if ch.IsObj {
+						hasObj = true
+					}
+				}
+				if !hasObj {
+					lay = 0
+				}
+			}
 			sub := buildEnc(it.Obj, embed, embedName, leafType, leafTag, paths, p, func(j int) int { return layoutIndex(lay, j) })
 			emb := reflect.StructField{Name: embedName, Type: embed, Anonymous: true}
 			if lay == 2 || lay == 3 {
@@ -321,7 +335,11 @@ func buildEnc(items []Enc, embed reflect.Type, embedName string, leafType func(i
 				if !it.Obj[j].IsObj {
 					tag = leafTag(it.Obj[j].Leaf)
 				}
-				children = append(children, reflect.StructField{Name: "F" + strconv.Itoa(j), Type: st, Tag: reflect.StructTag(tag)})
+				sf := reflect.StructField{Name: "F" + strconv.Itoa(j), Type: st, Tag: reflect.StructTag(tag)}
+				if (lay == 5 || lay == 6) && it.Obj[j].IsObj {
+					sf.Name, sf.Anonymous = "E"+strconv.Itoa(j), true
+				}
+				children = append(children, sf)
 			}
 			var fields []reflect.StructField
 			switch lay {
@@ -333,6 +351,8 @@ func buildEnc(items []Enc, embed reflect.Type, embedName string, leafType func(i
 				fields = append(append(append(fields, unexportedField), emb), children...)
 			case 4:
 				fields = append(append(append(fields, children[0]), emb), children[1:]...)
+			case 5:
+				fields = append(fields, children...)
 			default:
 				fields = append(append(fields, emb), children...)
 			}
@@ -398,7 +418,19 @@ func (w *World) materialize(f *Fn, viaOpt bool) *mat {
 		m.ins = append(m.ins, varT)
 	}
 	if f.HasErr {
-		m.outs = append(m.outs, errT)
+		if f.ErrPos > 0 && f.Pool == 0 {
+			m.outs = append([]reflect.Type{errT}, m.outs...)
+			for i := range m.rPaths {
+				m.rPaths[i][0]++
+			}
+			m.errIdx = 0
+			if f.ErrPos == 2 {
+				m.outs = append(m.outs, errT)
+			}
+		} else {
+			m.outs = append(m.outs, errT)
+			m.errIdx = len(m.outs) - 1
+		}
 	}
 	body := func(args []reflect.Value) []reflect.Value { return w.body(m, args) }
 	if f.Pool > 0 {
@@ -514,7 +546,7 @@ func (w *World) body(m *mat, args []reflect.Value) []reflect.Value {
 			if fault == "digerr" {
 				rec.Err.Inner = foreignDigError()
 			}
-			outs[len(outs)-1].Set(reflect.ValueOf(rec.Err))
+			outs[m.errIdx].Set(reflect.ValueOf(rec.Err))
 		}
 	}
 	if failed {
